@@ -146,8 +146,16 @@ func fullStackRound(r *vk.Run, rng *rand.Rand, id int) {
 	if id%2 == 0 {
 		// the stop arrives while the production loop and the inclusion loop are both inside calls to a remote
 		// execution client that hangs: both calls end with a transport-style error when the node gives up
+		// first the finalization call hangs (production goes on, so inclusion keeps asking for it), then execution
+		agg.exec.BlockFinal(true)
+		deadline := time.Now().Add(8 * time.Second)
+		for time.Now().Before(deadline) {
+			if _, f := agg.exec.InFlight(); f > 0 {
+				break
+			}
+			time.Sleep(time.Millisecond)
+		}
 		agg.exec.BlockCalls(true)
-		deadline := time.Now().Add(5 * time.Second)
 		for time.Now().Before(deadline) {
 			if e, f := agg.exec.InFlight(); e > 0 && f > 0 {
 				r.Count("fullstack_stop_with_exec_and_final_in_flight", 1)
